@@ -334,6 +334,10 @@ class Fn:
                     conds += a[2]
                     continue
                 a = self.ex(l, da)
+                if self.spec.get("optional_compare") and a[1] == ('O', 'Z') and isinstance(op, (ast.Lt, ast.LtE, ast.Gt, ast.GtE)):
+                    # [C03] spec option "optional_compare": an ordering comparison on an Optional[int] uses the value; on None
+                    # Python raises TypeError (side condition)
+                    a = self.coerce(l, a, 'Z')
                 b = self.ex(r, da, a[1])
                 if a[1] == 'Z':
                     sym = {ast.Lt: "<?", ast.LtE: "<=?", ast.Gt: ">?", ast.GtE: ">=?", ast.Eq: "=?"}
@@ -654,6 +658,31 @@ class Fn:
                 _fail(s, ".append on a parameter (the caller's list would change)")
             tx = self.ex(s.value.args[0], da, t[1])
             return self.guarded(tx[2], "(assign (fun s => %s))" % self.setter(v, "(%s ++ [%s])" % (self.get(v), tx[0]))), da
+        if isinstance(s, ast.Expr) and isinstance(s.value, ast.Call) and self.callname(s.value.func) in self.spec.get("skip_calls", []):
+            # [C03] spec option "skip_calls": an expression statement calling one of these (warnings.warn, logger.debug) has no
+            # effect on the translated state and is skipped WITHOUT evaluating its arguments (the spec's note must say so)
+            return "skip", da
+        if isinstance(s, ast.Expr) and isinstance(s.value, ast.Call) and isinstance(s.value.func, ast.Attribute) \
+                and isinstance(s.value.func.value, ast.Name) and not s.value.keywords \
+                and s.value.func.attr in self.spec.get("method_updates", {}) and s.value.func.value.id in self.locals:
+            # [C03] spec option "method_updates": {"<method>": {"coq": "<new value of the object; {self}, {0}, {1}..>", "ok": "<bool>",
+            # "args": [types]}}: the statement `v.method(a..)` on a LOCAL v updates v in place (a mutating method translated
+            # elsewhere); where "ok" fails the method raises
+            mu = self.spec["method_updates"][s.value.func.attr]
+            v = s.value.func.value.id
+            if v not in da:
+                _fail(s, "%s may be used before assignment" % v)
+            if len(mu["args"]) != len(s.value.args):
+                _fail(s, "arity of .%s" % s.value.func.attr)
+            parts = [self.ex(a, da, _tt(t)) for a, t in zip(s.value.args, mu["args"])]
+            conds = sum((p_[2] for p_ in parts), [])
+
+            def fill(txt):
+                txt = txt.replace("{self}", self.get(v))
+                for i_, p_ in enumerate(parts):
+                    txt = txt.replace("{%d}" % i_, p_[0])
+                return txt
+            return self.guarded(conds + [fill(mu["ok"])], "(assign (fun s => %s))" % self.setter(v, fill(mu["coq"]))), da
         if isinstance(s, ast.FunctionDef) and s.name in self.spec.get("skip_defs", []) and s.name not in self.vars:
             # [C17] spec option "skip_defs": a nested helper that is only reachable through a spec pattern (e.g. the key
             # function of a `sorted(.., key=helper)` pattern); its name is not a variable, so any other use fails closed.
